@@ -79,16 +79,24 @@ impl Source for MioListener {
         match *self {
             MioListener::Tcp(ref mut lst) => lst.deregister(registry),
             #[cfg(unix)]
-            MioListener::Uds(ref mut lst) => {
-                let res = lst.deregister(registry);
+            MioListener::Uds(ref mut lst) => lst.deregister(registry),
+        }
+    }
+}
 
-                // cleanup file path
+impl Drop for MioListener {
+    fn drop(&mut self) {
+        match *self {
+            MioListener::Tcp(_) => {}
+            #[cfg(unix)]
+            MioListener::Uds(ref lst) => {
+                // cleanup file path; deregistration (pause, accept back-off) must leave it in place
+                // or the listener could never be reached again after it is registered anew
                 if let Ok(addr) = lst.local_addr() {
                     if let Some(path) = addr.as_pathname() {
                         let _ = std::fs::remove_file(path);
                     }
                 }
-                res
             }
         }
     }
